@@ -1,4 +1,5 @@
 import UtilModel.Lemmas.TestKit
+import UtilModel.Lemmas.CodeTies
 /-!
 # C20 — Marshal-test helpers report exactly the failing cases
 
@@ -128,5 +129,10 @@ example : run .mt .tv [⟨0, .ok, .nil, .none, .data (some [98]), .ok none, some
 example : run .mb .tv [⟨0, .nil, .nil, .none, .data none, .ok none, some [], 0⟩] = (false, [true]) := by decide   -- nil vs empty
 example : run .mt .tp [⟨0, .nil, .nil, .none, .data none, .ok none, none, 0⟩] = (true, [false]) := by decide      -- FailNow
 example : run .ut .tv [⟨0, .nil, .panic, .none, .data none, .ok (some 5), none, 5⟩] = (false, [true]) := by decide -- hook panic
+
+/-- **tie to the source**: `isForMarshal` / `isForUnmarshal` as translated from `test/constraint.go` on this run -/
+theorem constraint_code_tie (c : Nat) :
+    isForMarshal c = Gen.test_isForMarshal c ∧ isForUnmarshal c = Gen.test_isForUnmarshal c :=
+  CodeTies.isFor_tie c
 
 end U.Props.C20
